@@ -55,12 +55,38 @@ fn token_alphabet_cls() -> Vec<(&'static str, Tok, &'static str)> {
     ]
 }
 
+/// `--alpha alt`: alternation-centred alphabet. Alternatives that are prefixes of one another, in both orders (the
+/// shorter one first / last), alternatives sharing a prefix, and one alternative that continues into a sub-directory.
+static ALT_MODE: std::sync::atomic::AtomicBool = std::sync::atomic::AtomicBool::new(false);
+
+fn token_alphabet_alt() -> Vec<(&'static str, Tok, &'static str)> {
+    vec![
+        ("a", Tok::Lit('a'), "lit"),
+        ("b", Tok::Lit('b'), "lit"),
+        ("-", Tok::Lit('-'), "lit_meta"),
+        ("/", Tok::Sep, "sep"),
+        ("*", Tok::Star, "star"),
+        ("**", Tok::DStar, "dstar"),
+        ("{ab,a}", Tok::Alts(vec!["ab", "a"]), "alt_prefix_last"),
+        ("{a,ab}", Tok::Alts(vec!["a", "ab"]), "alt_prefix_first"),
+        ("@(ab|a)", Tok::Alts(vec!["ab", "a"]), "ext_prefix_last"),
+        ("{ab-,aba,ab}", Tok::Alts(vec!["ab-", "aba", "ab"]), "alt_prefix_last"),
+        ("{ab,a-}", Tok::Alts(vec!["ab", "a-"]), "alt_common_prefix"),
+        ("{a/b,a}", Tok::Seqs(vec![vec![Tok::Lit('a'), Tok::Sep, Tok::Lit('b')], vec![Tok::Lit('a')]]), "alt_sep_inside"),
+    ]
+}
+
+const PATH_ALPHABET_ALT: [char; 4] = ['a', 'b', '-', '/'];
+
 const PATH_ALPHABET_CLS: [char; 9] = ['a', 'b', '&', '~', '[', '^', '.', '*', '/'];
 
 /// (source text, semantic token, kind name)
 fn token_alphabet() -> Vec<(&'static str, Tok, &'static str)> {
     if CLS_MODE.load(std::sync::atomic::Ordering::Relaxed) {
         return token_alphabet_cls();
+    }
+    if ALT_MODE.load(std::sync::atomic::Ordering::Relaxed) {
+        return token_alphabet_alt();
     }
     vec![
         ("a", Tok::Lit('a'), "lit"),
@@ -739,7 +765,11 @@ pub fn main(args: &[String]) {
     if arg_val(args, "--alpha") == Some("cls") {
         CLS_MODE.store(true, std::sync::atomic::Ordering::Relaxed);
     }
+    if arg_val(args, "--alpha") == Some("alt") {
+        ALT_MODE.store(true, std::sync::atomic::Ordering::Relaxed);
+    }
     let all_paths = match arg_val(args, "--alpha") {
+        Some("alt") => paths_over(&PATH_ALPHABET_ALT, pathlen),
         Some("ctl") => paths_over(&PATH_ALPHABET_CTL, pathlen),
         Some("cls") => paths_over(&PATH_ALPHABET_CLS, pathlen),
         _ => paths_upto(pathlen),
